@@ -1,8 +1,13 @@
 package checks
 
 import (
+	"fmt"
+	"os"
+
 	"verif/harness/internal/core"
+	"verif/harness/internal/crash"
 	"verif/harness/internal/gen"
+	"verif/harness/internal/hookrt"
 	"verif/harness/internal/run"
 	"verif/harness/internal/seq"
 )
@@ -14,14 +19,15 @@ func init() {
 		Cases: func(tier string) int { return tierN(tier, 3000, 40000) },
 		Run:   runC07,
 		Rule: "case = one history from the C01 (plain), C04 (GC cycles, with and without preceding flush, time-limited) or C02 (Close/reopen through snapshot and rescan) generators, by case index mod 3; after every completed Flush, after every Close and at the end the independent fsck reader evaluates the C07 invariant on the authoritative bucket table (live table while open, snapshot after Close); only fsck problems are verdicts here; " +
-			"non-trivial iff >=3 quiescent states were examined AND >=2 keys shared a bucket AND a file rolled over; distinct = hash of (configuration, digests, operations). Post-crash and post-concurrency states are examined by the C03/C05/C06 checks with the same fsck.",
+			"non-trivial iff >=3 quiescent states were examined AND >=2 keys shared a bucket AND a file rolled over; distinct = hash of (configuration, digests, operations). Crash slice (case index mod 16 == 15): a C03-style history is imaged at every hook point (torn variants included, except torn primary appends = trigger class of known finding C03-F1); fsck is evaluated on each image with the bucket table a rescan would build (log replay - no snapshot exists after a crash); each image is then recovered by OpenStore, used further (puts, flushes, GC cycles) with imaging still on, and fsck is evaluated again on every image of the continuation and on the closed store. Post-concurrency states are examined by C05/C06 with the same fsck.",
 		Assumptions: []string{
 			"fsck (internal/fsck) shares no parsing code with /repo; formats as in DESIGN.md Appendix A",
 			"the invariant is exactly the statement's list; unreferenced garbage, stale lists, zero-length files and empty record lists are legal",
 		},
 		Post: func(cov map[string]any, st map[string]int64, tier string) {
 			cov["quiescent_states_examined"] = st["fsck_states_flush"] + st["fsck_states_final"] + st["fsck_states_close"]
-			cov["states_by_origin"] = map[string]int64{"flush": st["fsck_states_flush"], "final": st["fsck_states_final"], "close": st["fsck_states_close"]}
+			cov["states_by_origin"] = map[string]int64{"flush": st["fsck_states_flush"], "final": st["fsck_states_final"], "close": st["fsck_states_close"], "crash-image": st["fsck_states_crash_image"], "post-recovery-crash-image": st["fsck_states_post_recovery_image"], "post-recovery-closed": st["fsck_states_post_recovery_closed"]}
+			cov["quiescent_states_examined"] = st["fsck_states_flush"] + st["fsck_states_final"] + st["fsck_states_close"] + st["fsck_states_crash_image"] + st["fsck_states_post_recovery_image"] + st["fsck_states_post_recovery_closed"]
 		},
 	})
 }
@@ -30,6 +36,9 @@ func runC07(c run.Ctx) *core.CaseResult {
 	nt := func(res *core.CaseResult) bool {
 		n := res.Stats["fsck_states_flush"] + res.Stats["fsck_states_final"] + res.Stats["fsck_states_close"]
 		return n >= 3 && res.HasFlag("shared-bucket") && (res.HasFlag("index-rollover") || res.HasFlag("primary-rollover"))
+	}
+	if c.Index%16 == 15 {
+		return runC07Crash(c)
 	}
 	switch c.Index % 3 {
 	case 0:
@@ -59,4 +68,181 @@ func runC13Seq(c run.Ctx) *core.CaseResult {
 		func(res *core.CaseResult) bool {
 			return res.Stats["conservation_points"] >= 3 && res.Stats["freelist_entries_observed"] >= 2
 		})
+}
+
+// ------------------------------------------------------------------ crash slice
+
+// fsckImage evaluates the invariant on a directory image using the bucket table a rescan would
+// build (or the snapshot, when the image has a usable one).
+func fsckImage(res *core.CaseResult, img core.DirImage, cfg gen.Config, origin, where string, witness any) {
+	dir, err := os.MkdirTemp(core.Scratch(), "vchk-fsck-")
+	if err != nil {
+		return
+	}
+	defer os.RemoveAll(dir)
+	if err := img.Materialize(dir); err != nil {
+		return
+	}
+	env, _ := core.EnvAt(dir, cfg)
+	l, err := env.Fsck()
+	if err != nil {
+		// unparsable header etc.: whether such a store opens is C03's question
+		res.Add("fsck_images_unloadable", 1)
+		return
+	}
+	if !l.HasIdxHeader {
+		return
+	}
+	b := l.ReplayBuckets()
+	if l.Snapshot != nil && len(l.Snapshot) == l.NumBuckets() {
+		b = l.Snapshot
+	}
+	ps, _ := l.Check(b)
+	res.Add("fsck_states_"+origin, 1)
+	for i, p := range ps {
+		if i >= 2 {
+			break
+		}
+		res.Violate("fsck", "fsck-"+p.Clause+"@"+origin, 0, witness, "[%s %s] %s", origin, where, p)
+	}
+}
+
+func runC07Crash(c run.Ctx) *core.CaseResult {
+	cfg, u, ops, r := c03Case(run.Ctx{Prop: "C07", Seed: c.Seed, Index: c.Index, Tier: c.Tier})
+	res := &core.CaseResult{ID: c.ID(), Verdict: "held"}
+	env, err := core.NewEnv(cfg)
+	if err != nil {
+		res.Verdict = "inconclusive"
+		return res
+	}
+	defer env.Cleanup()
+	rt := hookrt.New()
+	rt.Install()
+	defer hookrt.Uninstall()
+	rc := crash.NewRecorder(env.Root, rt)
+	sub := &core.CaseResult{}
+	rn := seq.NewRunner(env, u, rt, sub, seq.Opts{})
+	rc.Enabled = true
+	rc.Capture("before-first-open")
+	if !rn.Open() {
+		return res
+	}
+	for i, o := range ops {
+		rc.Call = i
+		rn.Exec(i, o)
+		rc.Capture("after-call")
+	}
+	rc.Enabled = false
+	rn.Finish()
+	var all []crash.Point
+	var multi int64
+	for i, p := range rc.Points {
+		if i > 0 {
+			for _, v := range crash.Variants(rc.Points[i-1], p, c.Tier == "thorough", &multi) {
+				if kindClass(v.Kind) == "torn-append:primary" {
+					continue // trigger class of known finding C03-F1
+				}
+				all = append(all, v)
+			}
+		}
+		all = append(all, p)
+	}
+	for k := range crash.MultiHooks {
+		delete(crash.MultiHooks, k)
+	}
+	limit := 12
+	if c.Tier == "thorough" {
+		limit = 300
+	}
+	stride := 1
+	if len(all) > limit {
+		stride = (len(all) + limit - 1) / limit
+	}
+	seen := map[string]bool{}
+	for i := r.IntN(stride); i < len(all); i += stride {
+		p := all[i]
+		h := p.Img.Hash()
+		if seen[h] {
+			continue
+		}
+		seen[h] = true
+		where := fmt.Sprintf("%s/%s", p.Hook, kindClass(p.Kind))
+		witness := map[string]any{"hook": p.Hook, "variant": p.Kind, "files": p.Img.Listing()}
+		fsckImage(res, p.Img, cfg, "crash_image", where, witness)
+		// recover, continue with imaging on, fsck every continuation image
+		dir, err := os.MkdirTemp(core.Scratch(), "vchk-rec7-")
+		if err != nil {
+			continue
+		}
+		func() {
+			defer os.RemoveAll(dir)
+			if p.Img.Materialize(dir) != nil {
+				return
+			}
+			env2, _ := core.EnvAt(dir, cfg)
+			rt2 := hookrt.New()
+			rt2.Install()
+			rc2 := crash.NewRecorder(dir, rt2)
+			sub2 := &core.CaseResult{}
+			rn2 := seq.NewRunner(env2, u, rt2, sub2, seq.Opts{})
+			rc2.Enabled = true
+			if !rn2.Open() {
+				return // C03 decides whether that is acceptable
+			}
+			// adopt whatever the recovered store holds (contents are C03's subject)
+			for _, k := range u.Keys {
+				if v, found, err := rn2.S.Get(append([]byte{}, k.Raw...)); err == nil && found {
+					rn2.M.M[string(k.Digest)] = append([]byte{}, v...)
+				}
+			}
+			cr := gen.Rng(int64(i), 31, uint64(len(p.Img)))
+			vid := uint64(1 << 41)
+			var cont []seq.Op
+			for j := 0; j < 6+cr.IntN(6); j++ {
+				if cr.IntN(4) == 0 {
+					cont = append(cont, seq.Op{Kind: "rm", K: cr.IntN(len(u.Keys))})
+				} else {
+					cont = append(cont, seq.Op{Kind: "put", K: cr.IntN(len(u.Keys)), VID: vid, VLen: 1 + cr.IntN(50)})
+					vid++
+				}
+				if cr.IntN(2) == 0 {
+					cont = append(cont, seq.Op{Kind: "flush"})
+				}
+			}
+			cont = append(cont, seq.Op{Kind: "flush"})
+			if cfg.Primary == gen.MH {
+				cont = append(cont, seq.Op{Kind: "gcp", A: 50}, seq.Op{Kind: "flush"}, seq.Op{Kind: "gci", A: 1}, seq.Op{Kind: "flush"})
+			}
+			for j, o := range cont {
+				rn2.Exec(j, o)
+				rc2.Capture("after-call")
+			}
+			rc2.Enabled = false
+			rn2.Finish()
+			// every image of the continuation is again a possible crash state
+			step := 1
+			if len(rc2.Points) > 12 {
+				step = len(rc2.Points) / 12
+			}
+			for j := 0; j < len(rc2.Points); j += step {
+				q := rc2.Points[j]
+				fsckImage(res, q.Img, cfg, "post_recovery_image", where+" then "+q.Hook, witness)
+			}
+			if img, err := core.Snapshot(dir); err == nil {
+				fsckImage(res, img, cfg, "post_recovery_closed", where, witness)
+			}
+		}()
+		rt.Install()
+		if len(res.Violations) >= 6 {
+			break
+		}
+	}
+	res.Add("crash_images_examined", int64(len(seen)))
+	res.Hash = caseHash(cfg, u, ops)
+	res.NonTrivial = len(seen) >= 10
+	res.Flag("crash-slice")
+	if c.Index < 16 || res.Verdict == "violated" {
+		res.Sample = map[string]any{"case": c.ID(), "kind": "crash-slice", "config": cfg, "ops": opsStrings(ops, 30), "images_and_variants": len(all), "examined": len(seen)}
+	}
+	return res
 }
